@@ -100,6 +100,10 @@ func DialContext(ctx context.Context, addr, mycall, password string) (net.Conn, 
 		return nil, err
 	}
 
+	// The context applies to the login as well, not only to the TCP connect:
+	// expire any pending read or write as soon as it is done.
+	stop := context.AfterFunc(ctx, func() { conn.SetDeadline(time.Now()) })
+
 	// Log in to telnet server
 	reader := bufio.NewReader(conn)
 L:
@@ -108,7 +112,11 @@ L:
 		line = strings.TrimSpace(strings.ToLower(line))
 		switch {
 		case err != nil:
+			stop()
 			conn.Close()
+			if ctxErr := ctx.Err(); ctxErr != nil {
+				return nil, ctxErr
+			}
 			return nil, fmt.Errorf("Error while logging in: %s", err)
 		case strings.HasPrefix(line, "callsign"):
 			fmt.Fprintf(conn, "%s\r", mycall)
@@ -116,6 +124,12 @@ L:
 			fmt.Fprintf(conn, "%s\r", password)
 			break L
 		}
+	}
+
+	if !stop() {
+		// The context was done before the login completed.
+		conn.Close()
+		return nil, ctx.Err()
 	}
 
 	return &Conn{conn, CMSTargetCall}, nil
